@@ -345,7 +345,7 @@ func (x *c08X) tpFuzzHook(data []byte) {
 		for _, pre := range []byte{0, 1, 2} {
 			in := append([]byte{pre}, data...)
 			if pv, st := c08Guard(func() { h(in) }); pv != nil {
-				x.viol("C08|repofuzz-transportparameters|panic|"+c08PanicClass(pv, st), fmt.Sprintf("fuzzing/transportparameters.Fuzz panicked: %v", pv), map[string]any{"fuzz_input_hex": c08Hex(in), "stack": st})
+				x.viol("C08|repofuzz-transportparameters|panic|"+c08FuzzClass(pv), fmt.Sprintf("fuzzing/transportparameters.Fuzz panicked: %v", pv), map[string]any{"fuzz_input_hex": c08Hex(in), "stack": st})
 			}
 			x.l.Count("repofuzz_transportparameters_calls", 1)
 		}
@@ -718,6 +718,25 @@ func TestVerifC08TransportParams(t *testing.T) {
 		}
 		x.c.End()
 	}
+	// seed-independent probes for max_idle_timeout: explicit 0, and values whose conversion to nanoseconds overflows
+	if next("tp/idle-timeout-probes", nil) {
+		for _, pers := range both {
+			for _, v := range []uint64{0, 1, 4999, 5000, math.MaxInt64 / 1000000, math.MaxInt64/1000000 + 1, 18446744073710, 18446744073710 + 5001, 18446744073710 + 123456, 1<<61 + 12345, c08MaxVarint} {
+				for _, with := range []bool{true, false} {
+					ps := []c08Param{{0xf, []byte{1, 2, 3, 4}}}
+					if pers == protocol.PerspectiveServer {
+						ps = append(ps, c08Param{0, []byte{5, 6, 7, 8}})
+					}
+					if with {
+						ps = append(ps, c08Param{1, c08VI(v)})
+					}
+					x.c.Eval(x.tpTotal(c08EncTP(ps), pers))
+				}
+			}
+		}
+		x.c.End()
+	}
+
 	// random parameter containers: random ids (biased to the known ones) with random bodies
 	for bi := range l.Pick(12, 300) {
 		id := fmt.Sprintf("tp/random/%d", bi)
